@@ -156,10 +156,23 @@ def _job(spec):
     problems = []
     stage = ["Runner(theory, observables)"]
 
+    evbox = []
+
+    def writers():
+        if not evbox or not evbox[0].watch_hits:
+            return ""
+        seen = []
+        for label, how, node in evbox[0].watch_hits:
+            site, construct, stmt = sweep.locate(proj, node)
+            txt = f"{site} `{stmt[:70]}` in {construct} writes the caller's {label} via {how}"
+            if txt not in seen:
+                seen.append(txt)
+        return " [writer(s): " + "; ".join(seen[:3]) + "]"
+
     def compare(stage):
         d = first_difference(before_t, th, "theory") or first_difference(before_o, ob, "observables")
         if d:
-            problems.append(f"after {stage}: caller's {d}")
+            problems.append(f"after {stage}: caller's {d}" + (writers() if not problems else ""))
 
     try:
         ext = {
@@ -172,6 +185,11 @@ def _job(spec):
         }
         ev = S.Evaluator(proj, on_call=P.above_threshold_hook, on_compare=R.make_compare(True), lenient_ext=True, ext_calls=ext)
         R._install_eko_overrides(ev, proj, ext)
+        evbox.append(ev)
+        ev.watch_abort = True  # a write into the caller's cards is the violation itself: stop folding there
+        for root, label in ((th, "theory"), (ob, "observables")):
+            for i in container_ids(root):
+                ev.watched[i] = label
         rcls = proj.cls("yadism.runner", "Runner")
         runner = ev.instantiate(S.ClassVal(ev, rcls), [th, ob], {})
         compare("Runner(theory, observables)")
@@ -226,6 +244,11 @@ def _job(spec):
         d = first_difference(t1, t2, "theory") or first_difference(o1, o2, "observables")
         if d:
             problems.append(f"legacy-card upgrade is not idempotent: {d}")
+    except S.WatchedWrite as w:
+        site, construct, stmt = sweep.locate(proj, w.node)
+        d = first_difference(before_t, th, "theory") or first_difference(before_o, ob, "observables") or f"{w.label} modified"
+        problems.append(f"during {stage[0]}: {site} `{stmt[:70]}` in {construct} writes the caller's {w.label} via {w.how} (caller's {d})")
+        return ("ok", problems[:4], len(problems))
     except A.Undecided as e:
         return ("undecided", str(e)[:200])
     except S.Raised as e:
